@@ -66,6 +66,8 @@
 //!   marked `*` on an affected handle (or `**` on any handle) returned Ok, unless the frame that completes it had
 //!   been delivered before the failure (`recv#k`: the k-th transfer complete in `pw`, `out#2`: `P1` in `pw`).
 //! * `c14-wrong-scope`: an error of an affected handle does not name the level the case stopped (table).
+//! * `c14-peer-error-lost-during-shutdown`: slow-shutdown cases (`shut=<ms>`): a `Session::begin` issued while the engine is
+//!   closing the transport does not report the peer's error although the connection handle does.
 //! * `c14-peer-error-lost`: `e` injection and no result of the affected handles contains `InternalError`
 //!   (`-hung-call`: the call in progress on an affected handle never returned, `-after-pipe-drop`: `then=silent`
 //!   and the affected handles were only touched after the pipe had been dropped).
@@ -152,6 +154,8 @@ pub struct Case {
     pub pipe: usize,
     /// the peer settles the client's second delivery only after the third one
     pub late: bool,
+    /// virtual milliseconds the client's stream takes to shut down (poll_shutdown stays pending that long)
+    pub shut: u64,
 }
 
 fn kv<'a>(w: &[&'a str], k: &str) -> Option<&'a str> {
@@ -163,8 +167,9 @@ pub fn parse_case(line: &str) -> Option<Case> {
     let w: Vec<&str> = rest.split_whitespace().collect();
     let pipe = kv(&w, "pipe").map(|v| v.parse().ok()).unwrap_or(Some(DEFAULT_PIPE))?;
     let late = kv(&w, "late").unwrap_or("0") == "1";
+    let shut: u64 = kv(&w, "shut").and_then(|v| v.parse().ok()).unwrap_or(0);
     if w.first() == Some(&"ref") {
-        return Some(Case { kind: Kind::Ref, pipe, late });
+        return Some(Case { kind: Kind::Ref, pipe, late, shut });
     }
     if let Some(d) = kv(&w, "dir") {
         let p2c = match d {
@@ -179,7 +184,7 @@ pub fn parse_case(line: &str) -> Option<Case> {
             "stall" => How::Stall,
             _ => return None,
         };
-        return Some(Case { kind: Kind::Cut { p2c, at, how }, pipe, late });
+        return Some(Case { kind: Kind::Cut { p2c, at, how }, pipe, late, shut });
     }
     let i = kv(&w, "inject")?;
     let (what, err) = match i {
@@ -204,10 +209,19 @@ pub fn parse_case(line: &str) -> Option<Case> {
         _ => return None,
     };
     let closed = kv(&w, "dc").unwrap_or("1") == "1";
-    Some(Case { kind: Kind::Inject { what, err, closed, pos, silent }, pipe, late })
+    Some(Case { kind: Kind::Inject { what, err, closed, pos, silent }, pipe, late, shut })
 }
 
 pub fn case_line(c: &Case) -> String {
+    let base = case_line_base(c);
+    if c.shut > 0 {
+        format!("{} shut={}", base, c.shut)
+    } else {
+        base
+    }
+}
+
+fn case_line_base(c: &Case) -> String {
     match c.kind {
         Kind::Ref => format!("cut ref pipe={} late={}", c.pipe, c.late as u8),
         Kind::Cut { p2c, at, how } => format!(
@@ -287,6 +301,9 @@ struct IoShared {
 struct ClientIo {
     inner: DuplexStream,
     sh: Arc<Mutex<IoShared>>,
+    /// a shutdown of the stream takes this long (virtual time): AsyncWrite::poll_shutdown may stay pending
+    shut_ms: u64,
+    shut_sleep: Option<Pin<Box<tokio::time::Sleep>>>,
 }
 
 fn reset_err() -> std::io::Error {
@@ -325,6 +342,18 @@ impl AsyncWrite for ClientIo {
         Pin::new(&mut self.inner).poll_flush(cx)
     }
     fn poll_shutdown(mut self: Pin<&mut Self>, cx: &mut Context<'_>) -> Poll<std::io::Result<()>> {
+        if self.shut_ms > 0 {
+            if self.shut_sleep.is_none() {
+                let d = std::time::Duration::from_millis(self.shut_ms);
+                self.shut_sleep = Some(Box::pin(tokio::time::sleep(d)));
+            }
+            if let Some(sl) = self.shut_sleep.as_mut() {
+                if sl.as_mut().poll(cx).is_pending() {
+                    return Poll::Pending;
+                }
+            }
+            self.shut_ms = 0;
+        }
         Pin::new(&mut self.inner).poll_shutdown(cx)
     }
 }
@@ -566,6 +595,7 @@ fn ok<T>(_: &T) -> String {
 /* ------------------------------------------------------------------------------------- */
 
 async fn conn_task(ob: Ob, io: ClientIo, to_sess: oneshot::Sender<Option<SessionHandle<()>>>, sess_done: oneshot::Receiver<()>) {
+    let slow_shutdown = io.shut_ms > 0;
     let r = call(&ob, CONN, "open", ok, Connection::builder().container_id("c").max_frame_size(MAX_FRAME).open_with_stream(io)).await;
     let mut conn = match r {
         Some(Ok(c)) => c,
@@ -578,6 +608,11 @@ async fn conn_task(ob: Ob, io: ClientIo, to_sess: oneshot::Sender<Option<Session
     let _ = to_sess.send(s.and_then(|r| r.ok()));
     ob.set_step(CONN, "idle");
     let _ = sess_done.await;
+    if slow_shutdown {
+        // only in the cases whose stream takes a while to shut down: a session begun while the engine is still closing
+        // the transport must fail for the reason the connection stopped
+        let _ = call(&ob, CONN, "begin2", |_: &SessionHandle<()>| "ok".to_string(), Session::builder().begin(&mut conn)).await;
+    }
     let _ = call(&ob, CONN, "close", ok, conn.close()).await;
     ob.push(CONN, format!("closed={}", conn.is_closed() as u8));
     ob.set_step(CONN, "done");
@@ -1240,7 +1275,7 @@ async fn run_async(case: Case) -> (String, Vec<String>, usize) {
         })),
         io: ios.clone(),
     };
-    let cio = ClientIo { inner: a, sh: ios.clone() };
+    let cio = ClientIo { inner: a, sh: ios.clone(), shut_ms: case.shut, shut_sleep: None };
     let peer = PeerSt {
         io: Some(b),
         parser: Parser::new(),
@@ -1633,6 +1668,17 @@ fn direct_oracle_inner(line: &str, trace: &str) -> Vec<String> {
             ));
         }
     }
+    // ---- a session begun while the engine is still shutting the transport down (slow-shutdown cases only)
+    if let Some(t) = toks[CONN].iter().find(|t| t.name == "begin2") {
+        if t.res.starts_with("ok") {
+            v.push("c14-data-op-ok-after-failure: `begin2` of task conn was issued after the peer's close and returned ok".to_string());
+        } else if err_injected && t.res.starts_with("Err(") && !t.res.contains("InternalError") {
+            v.push(format!(
+                "c14-peer-error-lost-during-shutdown: Session::begin issued while the transport was shutting down returned {} - the peer's close carried amqp:internal-error and the connection handle reports it",
+                t.res
+            ));
+        }
+    }
     // ---- the connection handle
     if !pc {
         if let Some(t) = toks[CONN].iter().find(|t| t.name == "close") {
@@ -1652,7 +1698,7 @@ fn direct_oracle_inner(line: &str, trace: &str) -> Vec<String> {
 pub fn reference_dims(late: bool) -> (usize, usize, usize) {
     static DIMS: [std::sync::OnceLock<(usize, usize, usize)>; 2] = [std::sync::OnceLock::new(), std::sync::OnceLock::new()];
     *DIMS[late as usize].get_or_init(|| {
-        let t = run_parsed(Case { kind: Kind::Ref, pipe: DEFAULT_PIPE, late });
+        let t = run_parsed(Case { kind: Kind::Ref, pipe: DEFAULT_PIPE, late, shut: 0 });
         let l = t.rsplit("len=").next().unwrap_or("0/0/0").split_whitespace().next().unwrap_or("0/0/0").to_string();
         let p: Vec<usize> = l.split('/').map(|x| x.parse().unwrap_or(0)).collect();
         (p[0], p[1], p[2])
@@ -1677,7 +1723,7 @@ pub fn gen_case(r: &mut Rng, thorough: bool) -> String {
         let pos = if r.chance(1, 2) { Pos::Before(j) } else { Pos::After(j) };
         Kind::Inject { what, err, closed: r.chance(2, 3), pos, silent: r.chance(1, 2) }
     };
-    case_line(&Case { kind, pipe, late })
+    case_line(&Case { kind, pipe, late, shut: 0 })
 }
 
 fn record(out: &mut Outputs, line: &str, trace: &str) {
@@ -1738,7 +1784,7 @@ pub fn enumerate(thorough: bool) -> Vec<String> {
     let mut v = Vec::new();
     for late in [false, true] {
         let (pl, cl, nf) = reference_dims(late);
-        v.push(case_line(&Case { kind: Kind::Ref, pipe: DEFAULT_PIPE, late }));
+        v.push(case_line(&Case { kind: Kind::Ref, pipe: DEFAULT_PIPE, late, shut: 0 }));
         // (a) every byte offset of both streams
         let mut variants: Vec<(How, usize)> = vec![(How::Eof, DEFAULT_PIPE)];
         if thorough {
@@ -1752,10 +1798,10 @@ pub fn enumerate(thorough: bool) -> Vec<String> {
         }
         for (how, pipe) in variants {
             for at in 0..=pl {
-                v.push(case_line(&Case { kind: Kind::Cut { p2c: true, at, how }, pipe, late }));
+                v.push(case_line(&Case { kind: Kind::Cut { p2c: true, at, how }, pipe, late, shut: 0 }));
             }
             for at in 0..=cl {
-                v.push(case_line(&Case { kind: Kind::Cut { p2c: false, at, how }, pipe, late }));
+                v.push(case_line(&Case { kind: Kind::Cut { p2c: false, at, how }, pipe, late, shut: 0 }));
             }
         }
         // (b) every injection before / after every frame of the peer
@@ -1767,8 +1813,14 @@ pub fn enumerate(thorough: bool) -> Vec<String> {
             for closed in dcs {
                 for silent in [false, true] {
                     for j in 1..=nf {
-                        v.push(case_line(&Case { kind: Kind::Inject { what, err, closed: *closed, pos: Pos::Before(j), silent }, pipe: DEFAULT_PIPE, late }));
-                        v.push(case_line(&Case { kind: Kind::Inject { what, err, closed: *closed, pos: Pos::After(j), silent }, pipe: DEFAULT_PIPE, late }));
+                        v.push(case_line(&Case { kind: Kind::Inject { what, err, closed: *closed, pos: Pos::Before(j), silent }, pipe: DEFAULT_PIPE, late, shut: 0 }));
+                        v.push(case_line(&Case { kind: Kind::Inject { what, err, closed: *closed, pos: Pos::After(j), silent }, pipe: DEFAULT_PIPE, late, shut: 0 }));
+                        if matches!(what, Inj::Close) {
+                            // the same close with a stream that takes 50 ms (virtual) to shut down: calls issued while the
+                            // engine is still closing the transport must already see why the connection stopped
+                            v.push(case_line(&Case { kind: Kind::Inject { what, err, closed: *closed, pos: Pos::Before(j), silent }, pipe: DEFAULT_PIPE, late, shut: 50 }));
+                            v.push(case_line(&Case { kind: Kind::Inject { what, err, closed: *closed, pos: Pos::After(j), silent }, pipe: DEFAULT_PIPE, late, shut: 50 }));
+                        }
                     }
                 }
             }
